@@ -18,6 +18,9 @@ head -5 "$DEMO" | grep -qi "roaring64" && PKGDIR=roaring64
 head -12 "$DEMO" | grep -qi "BitSliceIndexing" && PKGDIR=BitSliceIndexing
 grep -q "^package roaring64" "$DEMO" && PKGDIR=roaring64
 grep -q "^package BitSliceIndexing\|^package bitsliceindexing" "$DEMO" && PKGDIR=BitSliceIndexing
+# package roaring + the unqualified type BSI = the BitSliceIndexing directory (its package is named roaring too)
+grep -q "^package roaring$" "$DEMO" && grep -q "[^.A-Za-z]BSI\b" "$DEMO" && ! grep -q "roaring64\." "$DEMO" && PKGDIR=BitSliceIndexing
+[ -n "${VET_PKGDIR:-}" ] && PKGDIR=$VET_PKGDIR
 cp "$DEMO" "$PKGDIR/zz_mutant_demo_test.go"
 TESTS=$(grep -o "^func Test[A-Za-z0-9_]*" "$PKGDIR/zz_mutant_demo_test.go" | sed 's/func //' | paste -sd'|')
 echo "== demo on clean tree ($PKGDIR: $TESTS)"
